@@ -317,6 +317,116 @@ def _subgroups_facts(mod):
     return keyword, sep, guards[0] == "noninit", noninit_err, nodc_err, invalid_err, keep_member, leftover_check, leftover_err
 
 
+# ---- the small predicates of utils.py, translated whole --------------------------------------------
+
+OBJ_PRIMS = {  # what the three stdlib calls say about an object of kind k (Model/Replace.v okind)
+    "dataclasses.is_dataclass(obj)": "p_is_dataclass k",
+    "dataclasses.is_dataclass(type(obj))": "p_type_is_dataclass k",
+    "inspect.isclass(obj)": "p_isclass k",
+}
+ANN_PRIMS = {  # typing-level primitives over Model/Replace.v ann
+    "is_dataclass_type_or_typevar(t)": "p_is_dc_or_typevar t",
+    "is_tuple_or_list_of_dataclasses(t)": "p_list_of_dc t",
+    "is_union(t)": "p_is_union t",
+    "is_literal(t)": "p_is_literal t",
+    "type(None) in get_type_arguments(t)": "existsb p_is_nonetype (p_args t)",
+    "None in get_type_arguments(t)": "p_literal_has_none t",
+}
+
+
+def _bexpr(n, prims, selfcall=None):
+    if isinstance(n, ast.Constant) and isinstance(n.value, bool):
+        return "true" if n.value else "false"
+    if isinstance(n, ast.BoolOp):
+        op = " && " if isinstance(n.op, ast.And) else " || "
+        return "(" + op.join(_bexpr(v, prims, selfcall) for v in n.values) + ")"
+    if isinstance(n, ast.UnaryOp) and isinstance(n.op, ast.Not):
+        return f"(negb {_bexpr(n.operand, prims, selfcall)})"
+    t = unparse(n)
+    if t in prims:
+        return f"({prims[t]})"
+    if selfcall and t == f"any(({selfcall[0]}(arg) for arg in get_type_arguments(t)))":
+        # recursion over the arguments of a Union (get_type_arguments of anything else that passes is_union is empty)
+        return f"(match t with AUnion args_ => existsb {selfcall[1]} args_ | _ => false end)"
+    raise Unrecognised(f"expression `{t[:120]}`")
+
+
+def _bstmts(body, prims, selfcall, what):
+    if not body:
+        raise Unrecognised(f"{what}: may fall off the end")
+    st, rest = body[0], body[1:]
+    if isinstance(st, ast.Return) and st.value is not None:
+        return _bexpr(st.value, prims, selfcall)
+    if isinstance(st, ast.If):
+        then = clean(st.body)
+        if not then or not isinstance(then[-1], ast.Return):
+            raise Unrecognised(f"{what}: an arm that does not return")
+        els = clean(st.orelse)
+        return (f"(if {_bexpr(st.test, prims, selfcall)} then {_bstmts(then, prims, selfcall, what)} "
+                f"else {_bstmts(els + rest, prims, selfcall, what)})")
+    raise Unrecognised(f"{what}: statement `{unparse(st)[:100]}`")
+
+
+def _predicate(utils, name, arg, prims, selfcall=None):
+    fn = find_def(utils, name)
+    if [a.arg for a in fn.args.args] != [arg] or fn.decorator_list or fn.args.vararg or fn.args.kwarg or fn.args.kwonlyargs:
+        raise Unrecognised(f"{name}: signature / decorators")
+    return _bstmts(clean(fn.body), prims, selfcall, name)
+
+
+ANN_LOOKUP_SHA = "cc6f4932d658c3170e0b1c61c4146ea0c40cf4b0dc1ccc9ad660926216befe52"
+ANN_MODULE_NAMES = ["logger", "forward_refs_to_types"]
+
+
+def _ann_lookup_check(repo):
+    """get_field_type_from_annotations is what hands replace_subgroups a field's annotation; the model reads the annotation
+    facts off tables keyed by (class, field), i.e. assumes the lookup is a plain function of the class object.  It walks
+    frames and calls get_type_hints - not translatable - so its text is pinned and the module may hold no other
+    module-level state than the names below (a cache would be one)."""
+    import hashlib
+
+    m = parse(repo, "simple_parsing/annotation_utils/get_field_annotations.py")
+    names = []
+    for n in m.body:
+        if isinstance(n, ast.Assign):
+            names += [unparse(t) for t in n.targets]
+        elif isinstance(n, (ast.AnnAssign, ast.AugAssign)):
+            names.append(unparse(n.target))
+        elif not isinstance(n, (ast.FunctionDef, ast.Import, ast.ImportFrom, ast.Expr)):
+            raise Unrecognised(f"get_field_annotations.py: module-level {type(n).__name__}")
+    if names != ANN_MODULE_NAMES:
+        raise Unrecognised(f"get_field_annotations.py: module-level names are {names} (new module state?)")
+    fn = find_def(m, "get_field_type_from_annotations")
+    if [a.arg for a in fn.args.args] != ["some_class", "field_name"] or fn.decorator_list:
+        raise Unrecognised("get_field_type_from_annotations: signature / decorators")
+    if sum(1 for n in m.body if isinstance(n, ast.FunctionDef) and n.name == fn.name) != 1:
+        raise Unrecognised("get_field_type_from_annotations defined more than once")
+    for n in ast.walk(fn):
+        if isinstance(n, (ast.Global, ast.Nonlocal)):
+            raise Unrecognised("get_field_type_from_annotations declares global/nonlocal state")
+    text = "\n".join(unparse(x) for x in clean(fn.body))
+    if hashlib.sha256(text.encode()).hexdigest() != ANN_LOOKUP_SHA:
+        raise Unrecognised("get_field_type_from_annotations: body differs from the text the tables-by-(class, field) assumption "
+                           "was checked against")
+
+
+def _helpers_text(repo, utils):
+    inst = _predicate(utils, "is_dataclass_instance", "obj", OBJ_PRIMS)
+    typ = _predicate(utils, "is_dataclass_type", "obj", OBJ_PRIMS)
+    cdc = _predicate(utils, "contains_dataclass_type_arg", "t", ANN_PRIMS, ("contains_dataclass_type_arg", "contains_dc_gen"))
+    opt = _predicate(utils, "is_optional", "t", ANN_PRIMS)
+    _ann_lookup_check(repo)
+    return (
+        "(* utils.is_dataclass_instance / is_dataclass_type / contains_dataclass_type_arg / is_optional, translated whole *)\n"
+        f"Definition is_dataclass_instance_gen (k : okind) : bool := {inst}.\n"
+        f"Definition is_dataclass_type_gen (k : okind) : bool := {typ}.\n"
+        f"Fixpoint contains_dc_gen (t : ann) : bool := {cdc}.\n"
+        f"Definition is_optional_gen (t : ann) : bool := {opt}.\n"
+        "(* get_field_type_from_annotations: text pinned, no module-level state (checked by the translator) *)\n"
+        "Definition ann_lookup_is_plain_function_gen : bool := true.\n"
+    )
+
+
 def _b(x):
     return "true" if x else "false"
 
@@ -344,4 +454,5 @@ def emit(repo: str) -> str:
         f"{cstr(s_invalid_err)} {_b(s_keep)} {_b(s_lo)} {cstr(s_lo_err)}.\n"
         "Definition rsub_gen := rsub sfacts_gen.\n"
         "Definition unflatten_selection_gen := unflatten_selection sfacts_gen.\n"
+        + _helpers_text(repo, utils)
     )
